@@ -1,4 +1,6 @@
 """C08 - parser lifecycle: always terminates cleanly; Escape key timing is exact."""
+import vselftest
+from checks import selfmut
 import json
 import os
 import re
@@ -85,6 +87,13 @@ def main(c):
     c.cov["schedules_from_tlc"] = nsched
     td = c.drive(drv, "c08", replay=c.replay, extra=() if c.replay else ("-x", sched_file))
     rejects, _ = c.validate_traces(specs, "ParserLife_Trace.tla", "ParserLife_Trace.cfg", td)
+    if not c.replay:
+        c.cov["binding_selftest"] = vselftest.run(c, specs, "ParserLife_Trace.tla", "ParserLife_Trace.cfg", td, {r["scn"] for r in rejects}, [
+            ("end marker missing", selfmut.eof_dropped),
+            ("sequence after the end marker", selfmut.eof_not_last),
+            ("first delivered sequence missing", selfmut.item_dropped),
+            ("parser panicked", selfmut.parser_panicked),
+        ])
     idx = c.load_index(td)
     c.count_distinct(idx, nontrivial=lambda s: True)
     drift = sum(1 for s in idx.values() if "did not" in (s.get("note") or "") or "no parked" in (s.get("note") or ""))
